@@ -16,7 +16,7 @@ INPUT2 = ["zz", "ab q", "qa b", "a"]
 MORE = ["more a", "b more", "ab"]
 EVENTS = ["put(a)", "put(b)", "backward-delete-char", "clear-query", "change-query(a b)", "toggle-sort", "exclude", "up",
           "change-nth(2)", "change-nth(1)", "RELOAD2", "RELOAD1", "RELOADSYNC2", "backward-delete-char+put(c)", "put(a)+put(b)",
-          "beginning-of-line+forward-char+backward-delete-char+put(b)", "STDIN-MORE", "STDIN-EOF", "HOLD", "RELEASE", "RELOAD-2BATCH-SAMECOUNT"]
+          "beginning-of-line+forward-char+backward-delete-char+put(b)", "STDIN-MORE", "STDIN-EOF", "HOLD", "RELEASE", "RELOAD-2BATCH-SAMECOUNT", "RELOAD-SLOWSTART", "EXCLUDE+RELOAD-SLOWSTART"]
 
 
 def oracle(lines, query, sort, nth, excluded):
@@ -46,6 +46,8 @@ def run_seq(job):
         q, sort, nth, lines, excluded, cy = [], True, None, list(base), [], 0
         stdin_open, from_stdin = True, True
         nreload = 0
+        landing = False
+        slow_until = 0
         pending_reload = None  # a reload issued while stdin is still being read starts when that read ends
 
         def apply_pending():
@@ -91,6 +93,22 @@ def run_seq(job):
                 pending_reload = new
                 if not (stdin_open and from_stdin):
                     apply_pending()
+            elif ev in ("RELOAD-SLOWSTART", "EXCLUDE+RELOAD-SLOWSTART"):
+                if ev.startswith("EXCLUDE"):
+                    # exclusions are dropped by the reload, whatever happens in the gap before its first output
+                    cy = min(cy, max(0, len(cur) - 1))
+                    if cur:
+                        excluded.append(cur[cy])
+                    s.post("exclude")
+                # the command stays silent for a while: the following events are handled in the gap before its first output
+                nreload += 1
+                marker = "rl%d a" % nreload
+                s.post("reload(sleep 0.5; cat %s; echo %s)" % (f2, marker))
+                pending_reload = list(INPUT2) + [marker]
+                slow_until = time.time() + 0.45
+                if not (stdin_open and from_stdin):
+                    # the reload is running but has not delivered anything: it lands at the end of the sequence (or when the driver waits)
+                    landing = True
             elif ev.startswith("RELOAD"):
                 which = f2 if ev.endswith("2") else f1
                 # a per-reload marker line makes "the reload has landed" observable even when the content repeats
